@@ -35,7 +35,7 @@ func TestDebugShape(t *testing.T) {
 				}
 			}
 			th, w := threadsOf(sr.B, name)
-			fmt.Printf("units=%d needed=%d async=%d threads=%d waits=%d\n", len(r.Units), len(r.Needed), na, th, w)
+			fmt.Printf("wide=%v units=%d needed=%d async=%d threads=%d waits=%d\n", k.Spec.HasFeature("wide-fan"), len(r.Units), len(r.Needed), na, th, w)
 			n++
 			if os.Getenv("VERIF_DEBUG") == "2" && th >= 3 {
 				fmt.Println(readBand(sr.B, name))
